@@ -42,6 +42,7 @@ type input struct {
 	Arg2  int64 `json:"arg2,omitempty"`
 	Size int    `json:"size,omitempty"`
 	Hex  string `json:"hex,omitempty"` // for random: the bytes (kept in the descriptor for replay)
+	Op   string `json:"op,omitempty"`  // for kind "op": the explicit mutation operator
 	// Resign: after the alteration every COSE_Sign1 of the honest message that one of the
 	// deployment's keys signed is signed again with that key (a credentialed but hostile peer)
 	Resign bool `json:"resign,omitempty"`
@@ -284,6 +285,17 @@ func binleaf(b []byte, arg int64) []byte {
 
 func transform0(honest []byte, in input) ([]byte, bool) {
 	switch in.Kind {
+	case "op":
+		tree, err := refcbor.ParseAll(honest)
+		if err != nil {
+			return nil, false
+		}
+		refcbor.ExpandBstr(tree)
+		mt, _, ok := refcbor.Apply(tree, refcbor.Mutation{Node: in.Node, Op: in.Op, Arg: in.Arg})
+		if !ok {
+			return nil, false
+		}
+		return refcbor.EncodeKeepOrder(mt), true
 	case "binleaf":
 		tree, err := refcbor.ParseAll(honest)
 		if err != nil {
@@ -627,7 +639,7 @@ func evalServer(d caseDesc) ev.Result {
 	}
 	res := ev.OK(fmt.Sprintf("server-%d/%s/%d", d.Pos, d.In.Kind, r.Type))
 	res.NonTrivial = d.In.Kind != "honest"
-	res.ID = fmt.Sprintf("s|%d|%d|%s|%d|%d|%d|%d|%d|%s", d.Pos, d.Cfg%len(cfgs), d.In.Kind, d.In.Node, d.In.Arg, d.In.Node2, d.In.Arg2, d.In.Size, d.In.Hex+fmt.Sprint(d.In.Resign))
+	res.ID = fmt.Sprintf("s|%d|%d|%s|%d|%d|%d|%d|%d|%s", d.Pos, d.Cfg%len(cfgs), d.In.Kind, d.In.Node, d.In.Arg, d.In.Node2, d.In.Arg2, d.In.Size, d.In.Hex+d.In.Op+fmt.Sprint(d.In.Resign))
 	return res
 }
 
@@ -764,8 +776,63 @@ func evalClient(d caseDesc) ev.Result {
 		cls = "polling-until-cancelled"
 	}
 	res := ev.OK(fmt.Sprintf("client-%d/%s/%s", d.Pos, d.In.Kind, cls))
-	res.ID = fmt.Sprintf("c|%d|%d|%s|%d|%d|%d|%d|%d|%s", d.Pos, d.Cfg%len(cfgs), d.In.Kind, d.In.Node, d.In.Arg, d.In.Node2, d.In.Arg2, d.In.Size, d.In.Hex+fmt.Sprint(d.In.Resign))
+	res.ID = fmt.Sprintf("c|%d|%d|%s|%d|%d|%d|%d|%d|%s", d.Pos, d.Cfg%len(cfgs), d.In.Kind, d.In.Node, d.In.Arg, d.In.Node2, d.In.Arg2, d.In.Size, d.In.Hex+d.In.Op+fmt.Sprint(d.In.Resign))
 	return res
+}
+
+// honestResponses runs the whole honest chain once and returns the plaintext of
+// the first response of every type.
+func honestResponses(cfg deploy.Config) (map[int][]byte, error) {
+	ctx, cancel := context.WithTimeout(context.Background(), 60*time.Second)
+	defer cancel()
+	mfg, owner, rv := deploy.NewMemService("mfg", deploy.KeyMfg), deploy.NewMemService("owner", deploy.KeyOwner1), deploy.NewMemService("rv", deploy.KeyStranger)
+	owner.Modules.Factory = func(ctx context.Context) []deploy.NamedModule {
+		tr, _ := cbor.Marshal(true)
+		return []deploy.NamedModule{{Name: "probe", Mod: &deploy.ScriptOwnerModule{ModName: "probe", Steps: []deploy.OwnerStep{{Send: []deploy.KVMsg{{Name: "active", Body: tr}}}, {Send: []deploy.KVMsg{{Name: "x", Body: tr}}, Done: true}}}}}
+	}
+	dev := deploy.NewDevice(cfg, deploy.KeyDevice)
+	dev.Modules = map[string]serviceinfo.DeviceModule{"probe": &deploy.RecDeviceModule{}}
+	out := map[int][]byte{}
+	hook := func(svc *deploy.Service) *deploy.Link {
+		l := deploy.NewLink(svc)
+		l.OnResponse = func(ex *deploy.Exchange) *deploy.Action {
+			t := int(ex.RespType)
+			if _, seen := out[t]; seen || ex.RespStatus != 200 {
+				return nil
+			}
+			body := ex.RespBody
+			if t >= 65 {
+				sc, ok := svc.Mem.SessionCrypter(ex.ReqToken)
+				if !ok {
+					return nil
+				}
+				pt, err := sc.Decrypt(rand.Reader, bytes.NewReader(body))
+				if err != nil {
+					return nil
+				}
+				body = pt
+			}
+			out[t] = append([]byte{}, body...)
+			return nil
+		}
+		return l
+	}
+	if err := dev.DI(ctx, hook(mfg)); err != nil {
+		return nil, err
+	}
+	if _, err := deploy.TransferVoucher(ctx, cfg, mfg, deploy.KeyMfg, owner, deploy.KeyOwner1, dev.Cred.GUID); err != nil {
+		return nil, err
+	}
+	if _, err := deploy.RegisterTO0(ctx, owner, hook(rv), dev.Cred.GUID, deploy.DefaultAddrs(), 3600); err != nil {
+		return nil, err
+	}
+	if _, err := dev.TO1(ctx, hook(rv)); err != nil {
+		return nil, err
+	}
+	if _, err := dev.TO2(ctx, hook(owner), nil); err != nil {
+		return nil, err
+	}
+	return out, nil
 }
 
 // ---------------------------------------------------------------------------
@@ -966,6 +1033,132 @@ func TestC10(t *testing.T) {
 		}
 	}, evalHTTP)
 	r.SetRule("targets-http", "client error messages naming every protocol, sent to a handler with all or only the TO2 responder configured")
+
+
+	// ---- sweep: every node × every applicable operator with key arguments ----
+	hostileIdx := func(v uint64) int64 {
+		for i, h := range refcbor.Hostile {
+			if h == v {
+				return int64(i)
+			}
+		}
+		panic("hostile value missing")
+	}
+	lenIdx := func(v uint64) int64 {
+		for i, h := range refcbor.HostileLens {
+			if h == v {
+				return int64(i)
+			}
+		}
+		panic("hostile length missing")
+	}
+	type opArg struct {
+		op  string
+		arg int64
+	}
+	opsFor := func(k refcbor.Kind) []opArg {
+		out := []opArg{{"null", 0}, {"del", 0}, {"wrap", 0}, {"retype", 0}, {"addtag", 2}}
+		lens := []opArg{{"inflate", lenIdx(65536)}, {"inflate", lenIdx(1 << 31)}, {"inflate", lenIdx(1 << 32)}, {"inflate", lenIdx(1 << 63)}, {"inflate", lenIdx(1<<64 - 1)}, {"deflate", 0}}
+		switch k {
+		case refcbor.Uint, refcbor.Nint:
+			out = append(out, opArg{"intset", 0}, opArg{"intset", 8}, opArg{"intset", 10}, opArg{"intset", 11}, opArg{"intset", 20},
+				opArg{"hostile", hostileIdx(1 << 31)}, opArg{"hostile", hostileIdx(1 << 63)}, opArg{"hostile", hostileIdx(1<<64 - 1)}, opArg{"hostile", hostileIdx(100_001)}, opArg{"hostile", hostileIdx(3)}, opArg{"hostile", -3}, opArg{"intadd", 0}, opArg{"intadd", -1})
+		case refcbor.Bytes, refcbor.Text:
+			out = append(append(out, opArg{"empty", 0}, opArg{"trunc", 0}, opArg{"extend", 0}, opArg{"zero", 0}, opArg{"flipbit", 0}, opArg{"unwrap", 0}), lens...)
+		case refcbor.Array, refcbor.Map:
+			out = append(append(out, opArg{"empty", 0}, opArg{"trunc", 0}, opArg{"extend", 0}, opArg{"dup", 0}), lens...)
+		case refcbor.Tag:
+			out = append(out, opArg{"untag", 0}, opArg{"tagnum", 0}, opArg{"tagnum", 8})
+		default:
+			out = append(out, opArg{"bool", 0}, opArg{"undef", 0})
+		}
+		return out
+	}
+	sweepCfgs := []int{0, 1, 3}
+	if r.Thorough() {
+		sweepCfgs = []int{0, 1, 2, 3, 4}
+	}
+	r.SetRule("sweep-server", "systematic: for every server position and configuration (quick: 3 of 5, thorough: all), EVERY node of the honest message (descending into bstr-wrapped items) × every operator applicable to its kind with key arguments (null, delete, wrap, retype, tag; integers: 0, 2^31, 2^32-1, 2^63-1, 2^63, 2^64-1, -1, -2^63, unregistered ids; strings/containers: empty, shorter, longer, declared length 65536 / 2^31 / 2^32 / 2^63 / 2^64-1 / too small), each once as is and, where the message carries signatures made with a deployment key, once re-signed; same oracle as server")
+	ev.Enum(r, "sweep-server", true, func(yield func(caseDesc) bool) {
+		i := 0
+		for _, c := range sweepCfgs {
+			w, err := newSrvWorld(context.Background(), cfgs[c])
+			if err != nil {
+				panic(err)
+			}
+			for _, p := range serverPositions {
+				_, honest, _, err := w.reach(p)
+				if err != nil {
+					panic(fmt.Sprintf("sweep: reach %d: %v", p, err))
+				}
+				tree, err := refcbor.ParseAll(honest)
+				if err != nil {
+					continue
+				}
+				refcbor.ExpandBstr(tree)
+				signed := p == 22 || p == 32 || p == 64
+				for n, ref := range refcbor.Refs(tree) {
+					for _, oa := range opsFor(ref.Node.Kind) {
+						for _, rs := range []bool{false, true} {
+							if rs && !signed {
+								continue
+							}
+							i++
+							if !r.Mine(i) {
+								continue
+							}
+							if !yield(caseDesc{Side: "server", Pos: p, Cfg: c, In: input{Kind: "op", Op: oa.op, Node: n, Arg: oa.arg, Resign: rs}}) {
+								return
+							}
+						}
+					}
+				}
+			}
+		}
+	}, evalServer)
+
+	r.SetRule("sweep-client", "systematic: for every response position (11..71) and configuration (quick: 2 of 5, thorough: all), EVERY node of the honest response × every applicable operator with key arguments (as sweep-server), as is and, where the response carries a signature made with a deployment key (31, 33, 61, 63, 65), re-signed; delivered to the real client role by the man in the middle; same oracle as client")
+	ev.Enum(r, "sweep-client", true, func(yield func(caseDesc) bool) {
+		i := 0
+		cc := []int{0, 3}
+		if r.Thorough() {
+			cc = []int{0, 1, 2, 3, 4}
+		}
+		for _, c := range cc {
+			honest, err := honestResponses(cfgs[c])
+			if err != nil {
+				panic(fmt.Sprintf("sweep-client: honest run: %v", err))
+			}
+			for _, p := range clientPositions {
+				body, ok := honest[p]
+				if !ok {
+					panic(fmt.Sprintf("sweep-client: no honest response %d", p))
+				}
+				tree, err := refcbor.ParseAll(body)
+				if err != nil {
+					continue
+				}
+				refcbor.ExpandBstr(tree)
+				signed := p == 31 || p == 33 || p == 61 || p == 63 || p == 65
+				for n, ref := range refcbor.Refs(tree) {
+					for _, oa := range opsFor(ref.Node.Kind) {
+						for _, rs := range []bool{false, true} {
+							if rs && !signed {
+								continue
+							}
+							i++
+							if !r.Mine(i) {
+								continue
+							}
+							if !yield(caseDesc{Side: "client", Pos: p, Cfg: c, In: input{Kind: "op", Op: oa.op, Node: n, Arg: oa.arg, Resign: rs}}) {
+								return
+							}
+						}
+					}
+				}
+			}
+		}
+	}, evalClient)
 
 	r.SetRule("server", "for every server position, after the honest preceding steps (manual peers against the real responders behind the real HTTP handler, 5 configurations covering EC/RSA keys, all key-exchange families, AEAD and encrypt-then-MAC ciphers) the message is replaced by: one or two structure-aware mutations of the honest message (all operators: out-of-range enum/algorithm ids, null/absent optionals, negative and huge integers, length inflation, type changes, wrap/unwrap, duplicated/deleted items), bit flip, truncation, extension, random bytes, nested length-inflated containers up to 60 KiB; at protected positions (66,68,70) the plaintext is mutated and correctly re-encrypted, or the envelope is mutated. Oracle: no panic, response within 20 s, allocation ≤ 3 MiB + 1 KiB·len, and the response is the legitimate next message or a well-formed FDO ErrorMessage. Non-trivial: every delivered hostile message; distinct by (position, config, input).")
 	ev.Rapid(r, "server", ev.N{Quick: 9000, Thorough: 400000}, func(t *rapid.T) caseDesc {
